@@ -284,6 +284,8 @@ pub fn run(ctx: &mut Ctx) {
         let p1 = ProgGen::new(&mut rng, cfg).gen_program();
         let mut p2 = p1.clone();
         let what = edit_program(&mut rng, &mut p2);
+        // either version may come first in the registry
+        let (p1, p2) = if case % 2 == 1 { (p2, p1) } else { (p1, p2) };
         let o1 = sim::simulate(&p1);
         let o2 = sim::simulate(&p2);
         let merged = merge(&o1.registry, &o2.registry);
